@@ -141,19 +141,33 @@ spec fn hidden_cnt(m: Seq<(Seq<char>, J)>, s: Strat, n: nat) -> nat decreases n 
     if n == 0 || n > m.len() { 0 } else { hidden_cnt(m, s, (n - 1) as nat) + (if sd_spec(s, m[n - 1].0) { 1nat } else { 0nat }) }
 }
 spec fn str_js(ss: Seq<Seq<char>>) -> Seq<J> { ss.map_values(|s: Seq<char>| J::Str(s)) }
-// the object's `_sd` member, if any, is a non-empty array of strings in sorted order (so the order of the list is a function
-// of the digest multiset alone: it reveals neither member order nor which entries are decoys)
+// the object's `_sd` member, if any, is a non-empty array of strings
 spec fn sd_list_ok(o: Seq<(Seq<char>, J)>) -> bool {
     match j_get(o, K_SD()) {
         None => true,
-        Some(J::Arr(a)) => a.len() > 0 && exists|ss: Seq<Seq<char>>| a == str_js(ss) && sorted_strs(ss),
+        Some(J::Arr(a)) => a.len() > 0 && exists|ss: Seq<Seq<char>>| a == str_js(ss),
         Some(_) => false,
     }
 }
+// ... in sorted order: the order of the list is then a function of the digest multiset alone, so it reveals neither member
+// order nor which entries are decoys.  (C12 only asks that the order leak nothing; sorting is how this code achieves it, a
+// shuffle would do as well: hence a soft obligation.)
+spec fn sd_list_sorted(o: Seq<(Seq<char>, J)>) -> bool {
+    match j_get(o, K_SD()) {
+        Some(J::Arr(a)) => exists|ss: Seq<Seq<char>>| a == str_js(ss) && sorted_strs(ss),
+        _ => true,
+    }
+}
 spec fn sd_list_len(o: Seq<(Seq<char>, J)>) -> nat { match j_get(o, K_SD()) { Some(J::Arr(a)) => a.len(), _ => 0 } }
-proof fn lemma_sd_list_ok_sorted(o: Seq<(Seq<char>, J)>, ss: Seq<Seq<char>>)
-    requires o.len() > 0, o[0].0 == K_SD(), o[0].1 == J::Arr(str_js(ss)), sorted_strs(ss), ss.len() > 0
+proof fn lemma_sd_list_ok(o: Seq<(Seq<char>, J)>, ss: Seq<Seq<char>>)
+    requires o.len() > 0, o[0].0 == K_SD(), o[0].1 == J::Arr(str_js(ss)), ss.len() > 0
     ensures sd_list_ok(o), sd_list_len(o) == ss.len()
+{
+    lemma_j_idx0(o, K_SD());
+}
+proof fn lemma_sd_list_sorted(o: Seq<(Seq<char>, J)>, ss: Seq<Seq<char>>)
+    requires o.len() > 0, o[0].0 == K_SD(), o[0].1 == J::Arr(str_js(ss)), sorted_strs(ss)
+    ensures sd_list_sorted(o)
 {
     lemma_j_idx0(o, K_SD());
 }
